@@ -75,7 +75,7 @@ def check(R, F, P, cfg):
     f = anchor(F, ST + "increment_executions_count")
     S = Super(P, f, opaque=set())
     sets = [x for x in S.nodes if x.ci is not None and x.ci["k"] == "call" and x.ci["npath"].startswith("std::cell::Cell::<T>::set")]
-    ok = len(sets) == 1 and "executions_counter" in fmt(S.args_of(sets[0])[0]) and "AddWithOverflow 1" in fmt(S.args_of(sets[0])[1]) and "executions_counter" in fmt(S.args_of(sets[0])[1])
+    ok = len(sets) == 1 and "executions_counter" in fmt(S.args_of(sets[0])[0]) and ("AddWithOverflow 1" in fmt(S.args_of(sets[0])[1]) or "Add 1" in fmt(S.args_of(sets[0])[1])) and "executions_counter" in fmt(S.args_of(sets[0])[1])
     R.inst("R11.2", "delta-executions", ok, "increment_executions_count stores %s" % (fmt(S.args_of(sets[0])[1]) if sets else "?"), where=f.span, cfg=cfg)
 
     # ---- R11.3 size <-> membership -------------------------------------------------------------------------------------
@@ -182,11 +182,11 @@ def _size_delta(S, p):
             v = S.args_of(x)[1]
             s = fmt(v)
             r = repr(v)
-            if "'AddWithOverflow'" in r and "self" in s and "size" in s and repr(("const", 1)) in r:
+            if ("'AddWithOverflow'" in r or "'Add'" in r) and "self" in s and "size" in s and repr(("const", 1)) in r:
                 d += 1
-            elif "'SubWithOverflow'" in r and "size" in s and repr(("const", 1)) in r:
+            elif ("'SubWithOverflow'" in r or "'Sub'" in r) and "size" in s and repr(("const", 1)) in r:
                 d -= 1
-            elif "'AddWithOverflow'" in r and "size" in s and "'param'" in r:
+            elif ("'AddWithOverflow'" in r or "'Add'" in r) and "size" in s and "'param'" in r:
                 m = re.findall(r"\('param', '(\w+)'", r)
                 others = [y for y in m if y != "self"]
                 sym.append("+" + (others[0] if others else "?"))
